@@ -457,6 +457,27 @@ def run_freq(case: dict) -> Result:
                 res.add("false-negative", comp, "after-multi-level-merge", f"item {x!r}")
             elif kind == "cms" and min(top.estimate(x), last.estimate(x)) < truth.get(x, 0):
                 res.add("underestimate", comp, "after-multi-level-merge", f"estimate({x!r})={min(top.estimate(x), last.estimate(x))} < true {truth.get(x, 0)}")
+    elif kind == "topk":
+        # Round 8.  The statement claims no exact merge for TopK (the class documents that merging loses accuracy, and
+        # an item evicted on one side can be under-counted afterwards), so only the clause that survives a merge is
+        # judged: a tracked item's estimate exceeds its true count in the concatenated stream by at most the error the
+        # merged sketch reports (C20-r8-1: errors of an item tracked on both sides combined with max() instead of +).
+        for sp in sorted({case["split"], case.get("split2", 0), len(stream) // 2}):
+            a, b = _mk(case), _mk(case)
+            _feed(a, uni, stream[:sp])
+            _feed(b, uni, stream[sp:])
+            both = [x for x in uni if x in a and x in b]
+            a.merge(b)
+            res.count("topk_merges_checked")
+            if both:
+                res.count("topk_merges_with_item_tracked_on_both_sides")
+            for x in uni:
+                if x in a:
+                    res.count("queries_checked")
+                    e = a.estimate_with_error(x)
+                    if a.estimate(x) - truth[x] > e.error:
+                        res.add("error-bound", comp, "after-merge", f"item {x!r}: merged estimate {a.estimate(x)}, true count in the concatenated stream {truth[x]}, reported error {e.error}")
+                        break
     return res
 
 
